@@ -4,10 +4,15 @@
 (*  Enc : every frame sequence of length <= SeqLen over Paths x Fns, for     *)
 (*        every prefix, with every valid (optional-ditto) encoding           *)
 (*  Pair: every pair of frame sequences of length <= PairLen                 *)
+(*  Single: for every depth n in Deeps and every position k in 1..n, a deep  *)
+(*        stack and the stack that differs from it in frame k only (frame 1  *)
+(*        is the innermost): different stacks at whatever depth the          *)
+(*        difference lies                                                    *)
 (* Each state is an input with the outputs the specification demands; the    *)
 (* harness replays them on DecodeStack / EncodeStack / StackCounter.Inc.     *)
 EXTENDS StackName
-CONSTANTS StrLen, SeqLen, PairLen, Generic
+CONSTANTS StrLen, SeqLen, PairLen, Generic, Deeps
+\* Deeps: the stack depths of mode "single"
 \* Generic = TRUE adds the hidden instantiation component (finding F18)
 
 Chars == {Q, D, N, "x", "y"}
@@ -38,6 +43,15 @@ InitPair == /\ mode = "pair"
             /\ frs \in SeqsUpTo(FrameSet, PairLen) \ {<<>>}
             /\ frs2 \in SeqsUpTo(FrameSet, PairLen) \ {<<>>}
             /\ enc = "" /\ unc = "" /\ alts = {} /\ s = None /\ dec = ""
+BaseFrame == [path |-> <<"x">>, fn |-> <<"x">>, inst |-> 0]
+OtherFrames == {[path |-> <<"x">>, fn |-> <<"y">>, inst |-> 0], [path |-> <<"y">>, fn |-> <<"x">>, inst |-> 0]}
+InitSingle == /\ mode = "single"
+              /\ prefix = <<"x">>
+              /\ \E n \in Deeps, k \in 1..Max(Deeps) : \E o \in OtherFrames :
+                    /\ k <= n
+                    /\ frs = [i \in 1..n |-> BaseFrame]
+                    /\ frs2 = [i \in 1..n |-> IF i = k THEN o ELSE BaseFrame]
+              /\ enc = "" /\ unc = "" /\ alts = {} /\ s = None /\ dec = ""
 Next == UNCHANGED vars
 
 (* ---- theorems on strings (mode dec) ------------------------------------ *)
@@ -73,4 +87,13 @@ InjectiveRender == mode = "pair" =>
 InjectiveStacks == mode = "pair" =>
     ((frs # frs2 /\ Untruncated(prefix, frs) /\ Untruncated(prefix, frs2))
         => EncodeT(prefix, frs) # EncodeT(prefix, frs2))
+
+(* ---- one differing frame at any depth (mode single; MaxLen large) ------- *)
+SingleDiffers == mode = "single" =>
+    LET e1 == EncodeT(prefix, frs)  e2 == EncodeT(prefix, frs2)
+        d == {i \in 1..Len(frs) : frs[i] # frs2[i]} IN
+    /\ Cardinality(d) = 1 /\ Len(frs) = Len(frs2)
+    /\ ~Marked(e1) /\ ~Marked(e2)
+    /\ e1 # e2                                            \* different stacks, different names
+    /\ \A i \in 1..Len(frs) : (Lines(prefix, frs)[i + 1] # Lines(prefix, frs2)[i + 1]) = (i \in d)
 =============================================================================
